@@ -41,6 +41,16 @@
 #include "ompl/base/spaces/special/MobiusStateSpace.h"
 #include "ompl/base/spaces/special/SphereStateSpace.h"
 #include "ompl/base/spaces/special/TorusStateSpace.h"
+#include "ompl/base/spaces/EmptyStateSpace.h"
+#include "ompl/base/spaces/OwenStateSpace.h"
+#include "ompl/base/spaces/SpaceTimeStateSpace.h"
+#include "ompl/base/spaces/VanaOwenStateSpace.h"
+#include "ompl/base/spaces/VanaStateSpace.h"
+#include "ompl/base/Constraint.h"
+#include "ompl/base/ConstrainedSpaceInformation.h"
+#include "ompl/base/spaces/constraint/AtlasStateSpace.h"
+#include "ompl/base/spaces/constraint/ProjectedStateSpace.h"
+#include "ompl/base/spaces/constraint/TangentBundleStateSpace.h"
 #include "ompl/util/Console.h"
 #include "ompl/util/Exception.h"
 #include "ompl/util/RandomNumbers.h"
@@ -68,6 +78,10 @@ static const double PI = boost::math::constants::pi<double>();
 //   {"t":"RV","lo":[..],"hi":[..],"un":1,"ud":4,"upi":false}   coordinates in units un/ud (x pi)
 //   {"t":"SO2","N":8}   {"t":"SO3"}   {"t":"Time","b":true,"lo":..,"hi":..,"un":..,"ud":..}
 //   {"t":"Disc","lo":..,"hi":..}   {"t":"C","k":kind,"subs":[..],"w":[..]}   {"t":"W","sub":..}
+// Recorded spaces only (no lattice model): "real":"Empty" on an RV of no coordinates (EmptyStateSpace);
+// compound kinds Owen / Vana / VanaOwen (3-D Dubins airplane spaces: position bounds from the first three
+// coordinates of subs[0], the pitch range is the class's) and SpaceTime (subs = space, time; w[1] = time weight);
+// {"t":"W","con":"PJ"|"AT"|"TB","sub":R^3}: projected / atlas / tangent-bundle space with the unit sphere as constraint
 
 static double unitOf(const json &d)
 {
@@ -90,9 +104,34 @@ static ob::RealVectorBounds rvBounds(const json &d)
     return b;
 }
 
+// the constraint of the constrained record spaces: the sphere |x| = 1 in R^3
+class UnitSphere : public ob::Constraint
+{
+public:
+    UnitSphere() : ob::Constraint(3, 1)
+    {
+    }
+    void function(const Eigen::Ref<const Eigen::VectorXd> &x, Eigen::Ref<Eigen::VectorXd> out) const override
+    {
+        out[0] = x.norm() - 1.0;
+    }
+    void jacobian(const Eigen::Ref<const Eigen::VectorXd> &x, Eigen::Ref<Eigen::MatrixXd> out) const override
+    {
+        out = x.transpose().normalized();
+    }
+};
+// a constrained space needs its SpaceInformation for as long as it lives
+static std::vector<std::shared_ptr<void>> &keepAlive()
+{
+    static std::vector<std::shared_ptr<void>> k;
+    return k;
+}
+
 static ob::StateSpacePtr build(const json &d)
 {
     const std::string t = d["t"];
+    if (t == "RV" && d.value("real", std::string()) == "Empty")
+        return std::make_shared<ob::EmptyStateSpace>();
     if (t == "RV")
     {
         auto sp = std::make_shared<ob::RealVectorStateSpace>((unsigned int)d["lo"].size());
@@ -112,6 +151,45 @@ static ob::StateSpacePtr build(const json &d)
     }
     if (t == "Disc")
         return std::make_shared<ob::DiscreteStateSpace>(d["lo"].get<int>(), d["hi"].get<int>());
+    if (t == "W" && d.contains("con"))
+    {
+        // construction order of demos/constraint/ConstrainedPlanningCommon.h; library defaults for delta etc.
+        const std::string con = d["con"];
+        auto amb = build(d["sub"]);
+        auto c = std::make_shared<UnitSphere>();
+        std::shared_ptr<ob::ConstrainedStateSpace> css;
+        std::shared_ptr<ob::ConstrainedSpaceInformation> csi;
+        if (con == "PJ")
+        {
+            css = std::make_shared<ob::ProjectedStateSpace>(amb, c);
+            csi = std::make_shared<ob::ConstrainedSpaceInformation>(css);
+        }
+        else if (con == "AT")
+        {
+            css = std::make_shared<ob::AtlasStateSpace>(amb, c);
+            csi = std::make_shared<ob::ConstrainedSpaceInformation>(css);
+        }
+        else
+        {
+            css = std::make_shared<ob::TangentBundleStateSpace>(amb, c);
+            csi = std::make_shared<ob::TangentBundleSpaceInformation>(css);
+        }
+        css->setup();
+        csi->setStateValidityChecker([](const ob::State *) { return true; });
+        csi->setup();
+        if (con != "PJ")
+        {
+            // "Use AtlasStateSpace::anchorChart() first": the atlas samples from its charts
+            ob::State *s = css->allocState();
+            double *x = s->as<ob::WrapperStateSpace::StateType>()->getState()->as<ob::RealVectorStateSpace::StateType>()->values;
+            x[0] = x[1] = 0;
+            x[2] = 1;
+            css->as<ob::AtlasStateSpace>()->anchorChart(s);
+            css->freeState(s);
+        }
+        keepAlive().push_back(csi);
+        return css;
+    }
     if (t == "W")
         return std::make_shared<ob::WrapperStateSpace>(build(d["sub"]));
     if (t == "C")
@@ -138,6 +216,37 @@ static ob::StateSpacePtr build(const json &d)
             return std::make_shared<ob::MobiusStateSpace>(subs[1]["hi"][0].get<double>() * unitOf(subs[1]), 1.0);
         if (k == "Klein")
             return std::make_shared<ob::KleinBottleStateSpace>();
+        if (k == "Owen" || k == "Vana" || k == "VanaOwen")
+        {
+            ob::RealVectorBounds all = rvBounds(subs[0]), b(3);
+            for (unsigned i = 0; i < 3; ++i)
+            {
+                b.low[i] = all.low[i];
+                b.high[i] = all.high[i];
+            }
+            if (k == "Owen")
+            {
+                auto sp = std::make_shared<ob::OwenStateSpace>();
+                sp->setBounds(b);
+                return sp;
+            }
+            if (k == "Vana")
+            {
+                auto sp = std::make_shared<ob::VanaStateSpace>();
+                sp->setBounds(b);
+                return sp;
+            }
+            auto sp = std::make_shared<ob::VanaOwenStateSpace>();
+            sp->setBounds(b);
+            return sp;
+        }
+        if (k == "SpaceTime")
+        {
+            auto sp = std::make_shared<ob::SpaceTimeStateSpace>(build(subs[0]), 1.0, d["w"][1].get<double>());
+            if (subs[1]["b"].get<bool>())
+                sp->setTimeBounds(subs[1]["lo"].get<double>() * unitOf(subs[1]), subs[1]["hi"].get<double>() * unitOf(subs[1]));
+            return sp;
+        }
         auto sp = std::make_shared<ob::CompoundStateSpace>();
         for (std::size_t i = 0; i < subs.size(); ++i)
             sp->addSubspace(build(subs[i]), d["w"][i].get<double>());
@@ -966,6 +1075,25 @@ static const char *CENTRES[] = {"lowcorner", "highcorner", "middle", "seam"};
 static const char *DISTS[] = {"zero", "tiny", "extent", "x10", "x1000"};
 static const double DISTF[] = {0.0, 1e-9, 1.0, 10.0, 1000.0};
 
+// constrained spaces: a centre is a state of the space, i.e. on the constraint manifold (the unit sphere); the
+// nearest point of the sphere, clamped back into the box when the sphere sticks out of it
+static void ontoSphere(const Space &S, ob::State *s)
+{
+    if (!S.d.contains("con"))
+        return;
+    for (auto &L : S.leavesOf(s))
+    {
+        std::vector<double> v = leafValues(L);
+        double n = std::sqrt(v[0] * v[0] + v[1] * v[1] + v[2] * v[2]);
+        if (n < 1e-9)
+            v = {0, 0, 1}, n = 1;
+        for (double &x : v)
+            x /= n;
+        setLeafValues(L, v);
+    }
+    S.sp->enforceBounds(s);
+}
+
 // centre state of class c, written leaf by leaf from the REAL bounds
 static void centreState(const Space &S, ob::State *s, int c)
 {
@@ -993,6 +1121,7 @@ static void centreState(const Space &S, ob::State *s, int c)
         }
         setLeafValues(L, v);
     }
+    ontoSphere(S, s);
 }
 
 // push a state out of range, leaf by leaf; m = 0 leaves it alone (the no-op law)
@@ -1090,12 +1219,28 @@ static json wrapD(const json &sub)
     return json{{"t", "W"}, {"sub", sub}};
 }
 
+// position bounds from the setting; Vana / VanaOwen add the pitch coordinate, whose range is the class's default
+static json airD(const Setting &st, const char *k)
+{
+    json r = rvD(st, 3);
+    if (std::string(k) != "Owen")
+    {
+        r["lo"].push_back(-boost::math::double_constants::sixth_pi);
+        r["hi"].push_back(boost::math::double_constants::sixth_pi);
+    }
+    return compD(k, {r, so2D()}, {1, 0.5});
+}
+
 static std::vector<std::pair<std::string, json>> recordSpaces()
 {
     std::vector<std::pair<std::string, json>> out;
     for (auto &st : settings())
     {
         const std::string n = st.name;
+        out.push_back({"Owen/" + n, airD(st, "Owen")});
+        out.push_back({"Vana/" + n, airD(st, "Vana")});
+        out.push_back({"VanaOwen/" + n, airD(st, "VanaOwen")});
+        out.push_back({"SpaceTime/" + n, compD("SpaceTime", {rvD(st, 2), timeD(&st)}, {0.5, 0.5})});
         out.push_back({"RV1/" + n, rvD(st, 1)});
         out.push_back({"RV3/" + n, rvD(st, 3)});
         out.push_back({"SE2/" + n, compD("SE2", {rvD(st, 2), so2D()}, {1, 0.5})});
@@ -1125,6 +1270,17 @@ static std::vector<std::pair<std::string, json>> recordSpaces()
     out.push_back({"WrapperSO2", wrapD(so2D())});
     out.push_back({"WrapperSO3", wrapD(so3D())});
     out.push_back({"WrapperTorus", wrapD(compD("Torus", {so2D(), so2D()}, {1, 1}))});
+    out.push_back({"SpaceTime/unbounded-time", compD("SpaceTime", {rvD(settings()[0], 2), timeD(nullptr)}, {0.75, 0.25})});
+    out.push_back({"Empty", json{{"t", "RV"}, {"lo", json::array()}, {"hi", json::array()}, {"un", 1}, {"ud", 1}, {"upi", false}, {"real", "Empty"}}});
+    // the constrained spaces wrap R^3 = [-2, 2]^3, resp. a box the unit sphere sticks out of
+    Setting wide{"wide", {-2.0}, {2.0}, 0, 0}, tight{"tight", {-0.75}, {0.75}, 0, 0};
+    for (const char *con : {"PJ", "AT", "TB"})
+        for (const Setting *st : {&wide, &tight})
+        {
+            json w = wrapD(rvD(*st, 3));
+            w["con"] = con;
+            out.push_back({std::string(con[0] == 'P' ? "ProjectedSphere/" : con[0] == 'A' ? "AtlasSphere/" : "TangentBundleSphere/") + st->name, w});
+        }
     return out;
 }
 
